@@ -48,7 +48,7 @@ func (P) Engine() string { return "E1+E2" }
 
 func (P) Describe() harness.Description {
 	return harness.Description{
-		MustHit: []string{"value_readmitted_after_exit", "concurrent_rejections", "rules_changed_with_entries_in_flight", "value_free_again_after_reloads", "few_counters_configured"},
+		MustHit: []string{"value_readmitted_after_exit", "concurrent_rejections", "rules_changed_with_entries_in_flight", "value_free_again_after_reloads", "few_counters_configured", "rules_returned_by_the_getters_modified"},
 		Level:   "exploration",
 		Rule: "case = (1-2 resources, 1-2 hotspot concurrency rules per resource selecting the value by index, negative index or attachment key, thresholds 0-3 with specific-item tables; 10-60 ops: entries with argument lists / attachments over a small value alphabet (int, string, bool, float, struct), exits in any order, ticks; seeded pool reuse). " +
 			"E1: admit iff for every rule live(v) < T(v); blocked => hot-parameter block with that rule; after every op each per-value counter (read through an overlay accessor) == live entries of that value and every live entry's Input.Args is what its caller passed. " +
@@ -130,6 +130,11 @@ func (P) Gen(rng *sim.Rng, tier string) *harness.Case {
 					// N: 0 add/remove a rule, 1 switch its parameter position, 2 change its threshold, 3 load the same rules again
 					// 4: one load removes a rule and changes the threshold of the next one
 					ops = append(ops, harness.Op{K: "rl", N: uint64(rng.Weighted([]int{35, 20, 18, 12, 15})), M: uint64(rng.Intn(4))})
+					break
+				}
+				if ticks && rng.Chance(0.15) {
+					// the application looks at the rules in force and scribbles on what it got (the getters hand out copies)
+					ops = append(ops, harness.Op{K: "getmut"})
 					break
 				}
 				if ticks {
@@ -244,6 +249,32 @@ func build(cfg *Cfg, o *harness.Outcome) [][]*mrule {
 	return rules
 }
 
+// scribble writes into everything the rule getters return: they promise copies ("it doesn't take effect for
+// hotspot module if user changes the returned rules").
+func scribble(o *harness.Outcome, step int, nres int) {
+	harness.Call(o, "C06.panic", step, func() {
+		all := hotspot.GetRules()
+		for i := range all {
+			all[i].Threshold = 1000000
+			for k := range all[i].SpecificItems {
+				all[i].SpecificItems[k] = 1000000
+			}
+			if all[i].SpecificItems != nil {
+				all[i].SpecificItems["scribbled"] = 1000000
+			}
+		}
+		for r := 0; r < nres; r++ {
+			for _, x := range hotspot.GetRulesOfResource(harness.ResName(r)) {
+				x.Threshold = 1000000
+				for k := range x.SpecificItems {
+					x.SpecificItems[k] = 1000000
+				}
+			}
+		}
+	})
+	o.Probe("rules_returned_by_the_getters_modified")
+}
+
 func attachOf(op harness.Op) map[interface{}]interface{} {
 	if op.S == "" {
 		return nil
@@ -309,6 +340,11 @@ func (P) Exec(c *harness.Case) *harness.Outcome {
 			if d := op.N * 1e6; d < env.Clock.NowNs() {
 				env.Clock.SetNs(env.Clock.NowNs() - d)
 				o.Fault("clock_stepped_back")
+			}
+		case "getmut":
+			scribble(o, step, cfg.NRes)
+			if o.Failed() {
+				return o
 			}
 		case "exit":
 			if op.E < 0 || op.E >= len(ents) || ents[op.E] == nil || !ents[op.E].live {
@@ -703,6 +739,11 @@ func execReload(c *harness.Case, o *harness.Outcome, cfg *Cfg, rules [][]*mrule,
 			if d := op.N * 1e6; d < env.Clock.NowNs() {
 				env.Clock.SetNs(env.Clock.NowNs() - d)
 				o.Fault("clock_stepped_back")
+			}
+		case "getmut":
+			scribble(o, step, cfg.NRes)
+			if o.Failed() {
+				return
 			}
 		case "rl":
 			r := flat[int(op.M)%len(flat)]
